@@ -71,7 +71,7 @@ theorem departures_shift (p : Option ℚ) (t gap : ℚ) (id : Int) (rest : List 
 
 /-! ## agenda entries of a configuration -/
 
-variable {size rate}
+variable {size rate} {ql : Option Int}
 
 theorem mem_port {a : A} {x : QEntry ℚ} (h : x ∈ a.port.entries) : x ∈ a.entries := by
   simp [A.entries, h]
@@ -98,24 +98,24 @@ def IsMin (a : A) (q : QEntry ℚ) : Prop := q ∈ a.entries ∧ ∀ x ∈ a.ent
 
 variable {arrivals : List (ℚ × Int)} {a : A} {now : ℚ} {outs : List (Int × ℚ)} {q : QEntry ℚ}
 
-theorem AInv.now_le (hi : AInv size rate arrivals a now outs) (hq : IsMin a q) : now ≤ q.time := hi.due q hq.1
+theorem AInv.now_le (hi : AInv size rate ql arrivals a now outs) (hq : IsMin a q) : now ≤ q.time := hi.due q hq.1
 
 /-- an entry due now forces the minimal entry to be due now -/
-theorem AInv.time_eq (hi : AInv size rate arrivals a now outs) (hq : IsMin a q) {x : QEntry ℚ} (hx : x ∈ a.entries)
+theorem AInv.time_eq (hi : AInv size rate ql arrivals a now outs) (hq : IsMin a q) {x : QEntry ℚ} (hx : x ∈ a.entries)
     (hxt : x.time = now) : q.time = now :=
   le_antisymm (hxt ▸ not_keyLt_time (hq.2 x hx)) (hi.due q hq.1)
 
 /-- an entry due now precedes a minimal entry with a larger priority number: impossible -/
-theorem AInv.not_prio_lt (hi : AInv size rate arrivals a now outs) (hq : IsMin a q) {x : QEntry ℚ} (hx : x ∈ a.entries)
+theorem AInv.not_prio_lt (hi : AInv size rate ql arrivals a now outs) (hq : IsMin a q) {x : QEntry ℚ} (hx : x ∈ a.entries)
     (hxt : x.time = now) (hp : x.prio < q.prio) : False :=
   hq.2 x hx (keyLt_of_now hxt (hi.now_le hq) (Or.inr (Or.inl hp)))
 
-theorem AInv.not_eid_lt (hi : AInv size rate arrivals a now outs) (hq : IsMin a q) {x : QEntry ℚ} (hx : x ∈ a.entries)
+theorem AInv.not_eid_lt (hi : AInv size rate ql arrivals a now outs) (hq : IsMin a q) {x : QEntry ℚ} (hx : x ∈ a.entries)
     (hxt : x.time = now) (hp : x.prio = q.prio) (he : x.eid < q.eid) : False :=
   hq.2 x hx (keyLt_of_now hxt (hi.now_le hq) (Or.inr (Or.inr ⟨hp, he⟩)))
 
 /-- the loop instant and the arrivals of the source do not depend on `now` once the clock can advance -/
-theorem todo_advance (hi : AInv size rate arrivals a now outs) (hq : IsMin a q) (p : Option ℚ) :
+theorem todo_advance (hi : AInv size rate ql arrivals a now outs) (hq : IsMin a q) (p : Option ℚ) :
     departures size rate p (a.src.todo q.time).1 (a.src.todo q.time).2 =
       departures size rate p (a.src.todo now).1 (a.src.todo now).2 := by
   have hs := hi.src
@@ -129,12 +129,12 @@ theorem todo_advance (hi : AInv size rate arrivals a now outs) (hq : IsMin a q) 
   | done => simp [SPhase.todo, departures]
 
 /-- **letting the clock advance to the next entry changes nothing else** -/
-theorem AInv.advance (hi : AInv size rate arrivals a now outs) (hq : IsMin a q) :
-    AInv size rate arrivals a q.time outs := by
+theorem AInv.advance (hi : AInv size rate ql arrivals a now outs) (hq : IsMin a q) :
+    AInv size rate ql arrivals a q.time outs := by
   rcases eq_or_lt_of_le (hi.now_le hq) with h | h
   · rw [← h]; exact hi
   have hne : ∀ x ∈ a.entries, x.time ≠ now := fun x hx hxt => absurd (hi.time_eq hq hx hxt) (ne_of_gt h)
-  refine ⟨?_, ?_, ?_, hi.idle, ?_, ?_, ?_, hi.puts, hi.nput⟩
+  refine ⟨?_, ?_, ?_, hi.idle, ?_, ?_, ?_, hi.puts, hi.nput, hi.nacc, hi.accnone⟩
   · have hp := hi.port
     cases hport : a.port with
     | init q0 => rw [hport] at hp; exact absurd hp.1 (hne q0 (mem_port (by simp [hport, PPhase.entries])))
@@ -150,7 +150,8 @@ theorem AInv.advance (hi : AInv size rate arrivals a now outs) (hq : IsMin a q) 
   · intro u hu; exact absurd (hi.pend u hu).1 (hne u (mem_pend hu))
   · intro d hd; exact le_trans (hi.last d hd) (le_of_lt h)
   · intro x hx; exact not_keyLt_time (hq.2 x hx)
-  · rw [← hi.ghost]
+  · intro hql
+    rw [← hi.ghost hql]
     congr 1
     have hp := hi.port
     unfold pred
@@ -170,8 +171,8 @@ theorem AInv.advance (hi : AInv size rate arrivals a now outs) (hq : IsMin a q) 
 
 open Fifo in
 /-- the LTS accepts the clock advance to the next entry -/
-theorem lts_tick (hi : AInv size rate arrivals a now outs) (hq : IsMin a q) (h : now < q.time) :
-    Fifo.step (Port.dev (cfg rate)) (toF size a now) (.tick q.time) = .ok (toF size a q.time, .nothing) := by
+theorem lts_tick (hi : AInv size rate ql arrivals a now outs) (hq : IsMin a q) (h : now < q.time) :
+    Fifo.step (Port.dev (cfg rate ql)) (toF size a now) (.tick q.time) = .ok (toF size a q.time, .nothing) := by
   have hne : ∀ x ∈ a.entries, x.time ≠ now := fun x hx hxt => absurd (hi.time_eq hq hx hxt) (ne_of_gt h)
   have hp := hi.port
   cases hport : a.port with
@@ -189,8 +190,8 @@ theorem lts_tick (hi : AInv size rate arrivals a now outs) (hq : IsMin a q) (h :
     simp [Fifo.step, toF, hport, not_lt.mpr (le_of_lt h), hit]
 
 /-- zero or one `tick` brings the LTS to the instant of the next entry -/
-theorem lts_advance (hi : AInv size rate arrivals a now outs) (hq : IsMin a q) :
-    ∃ acts, Fifo.runActs (Port.dev (cfg rate)) (toF size a now) acts = .ok (toF size a q.time, [], []) := by
+theorem lts_advance (hi : AInv size rate ql arrivals a now outs) (hq : IsMin a q) :
+    ∃ acts, Fifo.runActs (Port.dev (cfg rate ql)) (toF size a now) acts = .ok (toF size a q.time, [], []) := by
   rcases eq_or_lt_of_le (hi.now_le hq) with h | h
   · exact ⟨[], by rw [← h]; rfl⟩
   · refine ⟨[.tick q.time], ?_⟩
